@@ -10,7 +10,7 @@ while [ "$1" = "--patch" ]; do PATCHES="$PATCHES $2"; shift 2; done
 [ "$1" = "--" ] && shift
 S=$(mktemp -d /tmp/ebv_tree.XXXXXX)
 trap 'rm -rf "$S"' EXIT
-git -C /repo archive "$REF" src | tar -x -C "$S"
+git -C /repo archive "$REF" src docs | tar -x -C "$S"
 mkdir -p "$S/_build"
 cp /repo/_build/config.h "$S/_build/config.h" 2>/dev/null || cp "$HERE/../.build/cfg/config.h" "$S/_build/config.h"
 for p in $PATCHES; do
